@@ -541,7 +541,7 @@ def check_C49(rep):
     tm.phase("model_check")
     # 1. exhaustive exploration of the specification
     runs = [("{1,2,3}", "{1}", 3, 3, 3), ("{2}", "{2}", 4, 4, 3)] if quick else \
-           [("{1,2,3}", "{1}", 4, 3, 4), ("{1,2,3}", "{2}", 4, 4, 4), ("{1,2}", "{3}", 6, 6, 3), ("{1}", "{4}", 8, 8, 3)]
+           [("{1,2,3}", "{1}", 4, 3, 4), ("{1,2,3}", "{2}", 4, 4, 4), ("{1,2}", "{3}", 6, 6, 3), ("{1}", "{4}", 4, 8, 3)]
     for divs, widths, maxacc, maxpend, leap in runs:
         cfg = tlc.render_cfg(_cfg("MCUart.cfg.tmpl"), {"Divisors": divs, "Widths": widths, "ByteAlpha": "{75, 210}",
                                                        "MaxAcc": maxacc, "MaxPend": maxpend, "MaxLeap": leap})
